@@ -6,6 +6,8 @@ extrema : approximate_{pubo,qubo,puso,quso}_extrema(model) versus the exact
 atr     : anneal_temperature_range(model, start, end, spin) on the same models
           for admissible probability pairs: finite T0 >= Tf >= 0, and (0, 0)
           for a model without variables.
+exact   : the same enclosure for coefficients that binary floating point cannot hold (fractions.Fraction,
+          integers beyond 2**53), judged in exact arithmetic.
 atr_stale : models whose non-constant terms all cancelled ("stale": cached
           variables, no variable terms) in a class of their own, every finding
           there carries the kind prefix ``atr_stale_model/``.
@@ -484,9 +486,87 @@ def _atr_spec(draw):
     return d
 
 
+# ---------------------------------------------------------------------------
+# exact number types: rationals and integers beyond 2**53 ("real coefficients" that binary floating point cannot hold)
+
+_EXACT_COEF = st.one_of(
+    st.tuples(st.just("F"), st.integers(-9, 9).filter(lambda p: p != 0), st.sampled_from([3, 7, 10, 9, 6])).map(list),
+    st.tuples(st.just("I"), st.sampled_from([53, 53, 54, 60, 64, 80]), st.sampled_from([1, -1, 3, -3, 5]),
+              st.sampled_from([1, -1])).map(list),
+    st.tuples(st.just("i"), st.integers(-4, 4).filter(lambda p: p != 0)).map(list),
+)
+
+
+def _decode_exact(c):
+    from fractions import Fraction
+    if c[0] == "F":
+        return Fraction(c[1], c[2])
+    if c[0] == "I":
+        return c[3] * (2 ** c[1] + c[2])
+    return c[1]
+
+
+@st.composite
+def _exact_spec(draw):
+    kind = draw(_KIND)
+    labels = draw(_pool(kind, 1, 5))
+    quad, spin = gen.is_quad(kind), gen.is_spin(kind)
+    keys = draw(gen.poly_strategy(labels, 6, 2 if (quad or draw(st.booleans())) else 4, st.just(1), repeats=False,
+                                  offset=True, min_terms=1, quad=quad, spin=spin))
+    return {"kind": kind, "labels": labels, "terms": [[k, draw(_EXACT_COEF)] for k, _ in keys],
+            "build": draw(_BUILD)}
+
+
+def run_exact(spec, rec):
+    import itertools
+    import numbers
+    import qubovert as qv
+    kind, labels = spec["kind"], list(spec["labels"])
+    spin = gen.is_spin(kind)
+    terms = [(tuple(k), _decode_exact(c)) for k, c in spec["terms"]]
+    can = canon_terms(terms, spin)
+    obj = build_obj(qv, {"kind": kind, "terms": terms, "build": spec.get("build", "iadd")})
+    used = sorted({l for k in can for l in k}, key=labels.index)
+    vals = []
+    for bits in itertools.product((1, -1) if spin else (0, 1), repeat=len(used)):
+        x = dict(zip(used, bits))
+        tot = 0
+        for k, v in can.items():
+            t = v
+            for l in k:
+                t = t * x[l]
+            tot = tot + t
+        vals.append(tot)
+    tmin, tmax = min(vals), max(vals)
+    detail = "kind=%s build=%s terms=%r" % (kind, spec.get("build"), terms)
+    classes = [kind] + sorted({"coef:" + c[0] for _, c in spec["terms"]})
+    with warnings.catch_warnings():
+        warnings.simplefilter("ignore")
+        for name in _fn_names(kind, terms):
+            res = lib(getattr(qv.utils, name), obj, what=name)
+            short = name.replace("approximate_", "").replace("_extrema", "")
+            if not isinstance(res, tuple) or len(res) != 2 or not all(
+                    isinstance(x, numbers.Real) and not isinstance(x, bool) for x in res):
+                raise Violation("not_a_pair/%s" % short, "returned %r; %s" % (res, detail))
+            lo, hi = res
+            if lo > tmin:
+                raise Violation("lower_bound_above_min/%s/exact" % short,
+                                "%s -> (%r, %r) but true min %r (exact arithmetic); %s" % (name, lo, hi, tmin, detail))
+            if hi < tmax:
+                raise Violation("upper_bound_below_max/%s/exact" % short,
+                                "%s -> (%r, %r) but true max %r (exact arithmetic); %s" % (name, lo, hi, tmax, detail))
+            # constant clause: syntactic for raw dicts (see ASSUMPTIONS), canonical polynomial for model objects
+            const_model = all(len(k) == 0 for k, _ in terms) if _is_dict(kind) else not any(can)
+            if const_model and not (lo == hi == can.get(frozenset(), 0)):
+                raise Violation("constant_not_exact/%s/exact" % short, "%s -> (%r, %r); %s" % (name, lo, hi, detail))
+    signs = {v > 0 for k, v in can.items() if k}
+    rec.case(spec, len(signs) == 2 and len(used) >= 2, classes)
+
+
 def subchecks(tier):
     return [
         Sub("extrema", _extrema_spec(), run_extrema, quick=12000, thorough=300000),
+        Sub("exact", _exact_spec(), run_exact, quick=3000, thorough=60000),
         Sub("atr", _atr_spec(), run_atr, quick=10000, thorough=200000),
         # last, so that a finding here does not cut the other searches short
         Sub("atr_stale", stale_strategy(), run_atr_stale, quick=1200, thorough=30000),
